@@ -18,6 +18,7 @@ T1 = ('TWPRGE', '154n97w', 0, 10)
 T2 = ('TWPRGE', '155n97w', 30, 40)
 ARRANGEMENTS = {
     'TRS_desc: T S S': ([T1], [('SEC', ['14'], 11, 17), ('SEC', ['15', '16'], 30, 36)]),
+    'TRS_desc: T S+S S': ([T1], [('SEC', ['14', '15'], 11, 17), ('SEC', ['16'], 30, 36)]),       # a multi-section block that is not the last
     'desc_STR: S T': ([('TWPRGE', '154n97w', 20, 30)], [('SEC', ['14'], 5, 11)]),
     'S_desc_TR: S S T': ([('TWPRGE', '154n97w', 40, 50)], [('SEC', ['14'], 0, 6), ('SEC', ['15'], 20, 26)]),
     'two groups: T S T S': ([T1, T2], [('SEC', ['14'], 11, 17), ('SEC', ['01'], 41, 47)]),
